@@ -19,6 +19,22 @@ func (ex *Exec) call(fr *Frame, st *State, ci *ssa.Call) *Val {
 	}
 	rt := ci.Type()
 	pos := posOf(fr.fn, ci.Pos())
+	if fr.isRoot && ex.quiet == 0 && fr.contract != nil && len(fr.contract.Asserts) > 0 {
+		name, k := callOrdinal(fr.fn, ci)
+		for _, a := range fr.contract.Asserts {
+			if a.Callee == name && a.K == k {
+				cj := ex.goalCtx(fr, st, ex.oldState, nil).conjuncts(a.Clause.Expr)
+				for j, x := range cj {
+					nm := fmt.Sprintf("assert[%s]@call[%s:%d]", clauseLabel(a.Clause, 0), name, k)
+					if len(cj) > 1 {
+						nm = fmt.Sprintf("assert[%s.%d]@call[%s:%d]", clauseLabel(a.Clause, 0), j+1, name, k)
+					}
+					ex.oblige(st, "assert", nm, x.T, a.Clause.Tags, pos, "assert "+x.Text)
+				}
+				ex.assertsHit[fmt.Sprintf("%s:%d", name, k)] = true
+			}
+		}
+	}
 	if com.IsInvoke() {
 		recv := ex.val(fr, com.Value, st)
 		return ex.invoke(fr, st, ci, recv, com.Method, args, rt, pos)
@@ -463,7 +479,7 @@ func (ex *Exec) byContract(fr *Frame, st *State, ci *ssa.Call, ct *Contract, key
 	if pkg == "" && fr.fn.Pkg != nil {
 		pkg = fr.fn.Pkg.Pkg.Path()
 	}
-	cpre := &SCtx{ex: ex, pkg: pkg, env: env, cur: st, old: nil}
+	cpre := &SCtx{ex: ex, pkg: pkg, env: env, cur: st, old: nil, goal: true}
 	for i, c := range ct.Requires {
 		cj := cpre.conjuncts(c.Expr)
 		for j, x := range cj {
@@ -743,4 +759,35 @@ func (ex *Exec) applyPtrAssign(c *SCtx, st *State, as ptrAssign) {
 		nv = &c2
 	}
 	st.cells[p.Tg[0].Loc.Key()] = nv
+}
+
+func calleeName(ci *ssa.Call) string {
+	com := ci.Common()
+	if com.IsInvoke() {
+		return com.Method.Name()
+	}
+	switch v := com.Value.(type) {
+	case *ssa.Builtin:
+		return v.Name()
+	case *ssa.Function:
+		return v.Name()
+	}
+	return com.Value.Name()
+}
+
+// callOrdinal numbers the calls of the same callee name within a function in block order.
+func callOrdinal(fn *ssa.Function, ci *ssa.Call) (string, int) {
+	name := calleeName(ci)
+	n := 0
+	for _, b := range fn.Blocks {
+		for _, in := range b.Instrs {
+			if c, ok := in.(*ssa.Call); ok && calleeName(c) == name {
+				n++
+				if c == ci {
+					return name, n
+				}
+			}
+		}
+	}
+	return name, 0
 }
